@@ -343,6 +343,38 @@ func TestPropExtraKeysDoNotChangeKind(t *testing.T) {
 		}
 		step := doc.MapNode(rapid.Bool().Draw(t, "flow"), content...)
 		root := doc.MapNode(false, doc.StrNode("steps"), doc.SeqNode(false, step))
+		if rapid.IntRange(0, 3).Draw(t, "layered") == 0 {
+			// the same keys arriving through a chain of merges: the step merges a template that merges
+			// defaults and then overrides what it inherits - `type` first of all. The rule sees the merged
+			// content: an explicit key beats the same key from a merge at every level.
+			defaults := doc.MapNode(false, doc.StrNode("inherited-only"), doc.StrNode("d"))
+			if typ != "<absent>" {
+				other := "script"
+				if typ == "command" || typ == "script" {
+					other = "block"
+				}
+				defaults.Content = append(defaults.Content, doc.StrNode("type"), doc.StrNode(other))
+			}
+			defaults.Anchor = "defaults"
+			cut := rapid.IntRange(0, len(content)/2).Draw(t, "cut") * 2
+			tpl := doc.MapNode(false, doc.MergeKey(), doc.AliasNode(defaults))
+			// the template's own keys are written AFTER its merge line
+			for i := 0; i < len(content); i += 2 {
+				if content[i].Value == "type" || i < cut {
+					tpl.Content = append(tpl.Content, content[i], content[i+1])
+				}
+			}
+			tpl.Anchor = "template"
+			st2 := doc.MapNode(false, doc.MergeKey(), doc.AliasNode(tpl))
+			for i := 0; i < len(content); i += 2 {
+				if !(content[i].Value == "type" || i < cut) {
+					st2.Content = append(st2.Content, content[i], content[i+1])
+				}
+			}
+			root = doc.MapNode(false, doc.StrNode("x-defs"), doc.SeqNode(false, defaults, tpl), doc.StrNode("steps"), doc.SeqNode(false, st2))
+			extras++
+			recExtra.Class("keys-arrive-through-a-chain-of-merges")
+		}
 		d, err := doc.Render(root, 2, 20000)
 		if err != nil {
 			e := err.Error()
